@@ -217,6 +217,14 @@ def listing_diff_is_order_only(a, b):
 
 # ------------------------------------------------------------------ results
 
+class ImplDefect(BaseException):
+    """an object built through vakt's public constructors is not usable at all (not an Exception: the generators'
+    `except Exception: skip this case` must not hide it)"""
+    def __init__(self, what, case):
+        super().__init__(what)
+        self.what, self.case = what, case
+
+
 class Failure:
     def __init__(self, kind, case, impl, model, oracle, theorem, text='', line=None, size=None):
         self.kind = kind            # 'disagreement' | 'oracle' | 'unproved'
